@@ -25,12 +25,16 @@ CONSTANTS RMKinds,        \* resource manager kinds explored
           MaxHosts,       \* allocated hosts: 1 .. MaxHosts
           Orders,         \* host orders: subset of {"asc", "desc", "rot"}
           CoreChoices,    \* physical cores per node
+          LsfCoreChoices, \* ... of LSF platforms
           SmtChoices,     \* hardware threads per core
+          LsfSmtChoices,  \* ... on LSF platforms (summit / lassen: 1, 4)
+          PSlotChoices,   \* lines a pseudo node has in an LSF host file
           GpuCfgs,        \* set of <<gpus per node, blocked gpu indices>>
           BlockedCs,      \* set of blocked core index sets
           Backups,        \* backup node counts
           AgentCounts,    \* numbers of sub-agents on own nodes
-          Sweep,          \* "full" | "parse" | "filter": which part of the space
+          Sweep,          \* "full" | "parse" | "filter": which part of the space (the odd LSF
+                          \* host files and the GPUs from the environment are in "parse")
           PrintCases,     \* print every input as <<"CASE", ...>> for the rig
           DevKeepDuplicates,   \* repeated host lines yield repeated entries
           DevKeepPseudo,       \* login / batch / launch node kept as a node
@@ -39,7 +43,9 @@ CONSTANTS RMKinds,        \* resource manager kinds explored
           DevAgentsStay,       \* agent nodes copied, not removed
           DevBackupAfterCut,   \* D20: backup list taken from the list after the cut
           DevCopyDropsService, \* registry copy loses the service node list
-          DevRegistryKeyCase   \* entry stored as rm.<Name>, looked up as rm.<name>
+          DevRegistryKeyCase,  \* entry stored as rm.<Name>, looked up as rm.<name>
+          DevLsfTrustConfig,   \* LSF: host file not checked when cores_per_node is configured
+          DevGpusAfterList     \* Slurm: node entries built before the GPUs are detected
 
 VARIABLES in,      \* the input (never changes)
           phase,   \* start parsed blocked cut reserved published recreated | failed
@@ -47,9 +53,10 @@ VARIABLES in,      \* the input (never changes)
           P,       \* [nodes, agents, service, backup]
           reg,     \* registry: "none" until published, then [key, val]
           copy,    \* RMInfo of another component of the pilot
-          fromreg  \* that component found agent_0's entry (did not inspect the allocation again)
+          fromreg, \* that component found agent_0's entry (did not inspect the allocation again)
+          info     \* [cpn, gpn]: cores_per_node / gpus_per_node of RMInfo
 
-vars == <<in, phase, full, P, reg, copy, fromreg>>
+vars == <<in, phase, full, P, reg, copy, fromreg, info>>
 
 EmptyP == [nodes |-> <<>>, agents |-> <<>>, service |-> <<>>, backup |-> <<>>]
 
@@ -70,6 +77,12 @@ ShapesOf(r) == CASE r = "FORK"                     -> {"virtual"}
 PseudoOf(r) == IF r = "LSF" THEN {"none", "login", "batch", "launch", "both"} ELSE {"none"}
 StylesOf(r) == IF r = "SLURM" THEN {"list", "range"} ELSE {"plain"}
 \* FORK would probe the machine, COBALT and the PBSPro node file refuse an unknown node size
+SmtOf(r)    == IF r = "LSF" THEN LsfSmtChoices ELSE SmtChoices
+CoresOf(r)  == IF r = "LSF" THEN LsfCoreChoices ELSE CoreChoices
+PSlotsOf(r, ps) == IF r = "LSF" /\ ps # "none" THEN PSlotChoices ELSE {1}
+UnevenOf(r) == IF r = "LSF" THEN BOOLEAN ELSE {FALSE}
+GpuSrcOf(r) == IF r = "SLURM" THEN {"config", "GPUS_ON_NODE", "JOB_GPUS", "STEP_GPUS", "DEVICE_ORDINAL"}
+               ELSE {"config"}
 KnownOf(r)  == IF r \in {"FORK", "COBALT_FILE", "COBALT_PART", "PBSPRO_FILE"} THEN {TRUE} ELSE BOOLEAN
 
 MinOf(S) == CHOOSE x \in S : \A y \in S : x <= y
@@ -77,22 +90,34 @@ MinOf(S) == CHOOSE x \in S : \A y \in S : x <= y
 InSweep(i) ==
   LET k == IF i.rm = "FORK" THEN 2 ELSE Len(i.hosts) IN
   CASE Sweep = "parse" ->     \* every way to write an allocation, two layouts
-         \/ i.backup = 0 /\ i.agents = 0 /\ ~i.service /\ i.requested = k
-         \/ i.backup = 1 /\ i.agents = 1 /\ ~i.service /\ i.requested = k - 1 /\ k - 1 >= 1
+         \* LSF: the odd host files (pseudo nodes with several slots, partially listed
+         \* host) are crossed with hosts / shape / SMT / configured-or-not, not with the
+         \* GPU and blocked core settings
+         /\ (i.rm = "LSF" /\ i.cores > MinOf(LsfCoreChoices)) => (i.uneven \/ i.pslots > 1)
+         /\ (i.uneven \/ i.pslots > 1) =>
+               /\ i.gpn = 0 /\ i.bc = {} /\ i.slack = 0 /\ i.pseudo # "both"
+               /\ i.uneven => (i.pslots = 1 /\ i.pseudo \in {"none", "launch"})
+         /\ \/ i.backup = 0 /\ i.agents = 0 /\ ~i.service /\ i.requested = k
+            \/ i.backup = 1 /\ i.agents = 1 /\ ~i.service /\ i.requested = k - 1 /\ k - 1 >= 1
     [] Sweep = "filter" ->    \* every layout, one way to write the allocation per RM
-         /\ i.cores = MinOf(CoreChoices)
+         /\ i.cores = MinOf(CoresOf(i.rm)) /\ i.pslots = 1 /\ ~i.uneven /\ i.gpusrc = "config"
          /\ i.hosts = HostSeq(Len(i.hosts), FALSE, "asc")
          /\ i.shape \in {"virtual", "expr", "vnode", "slot_adj"}
          /\ i.pseudo \in {"none"} /\ i.style \in {"range", "plain"}
-         /\ i.gpn = 0 /\ i.slack = 0
-    [] OTHER -> TRUE
+         /\ i.gpn = 0 /\ i.bc = {} /\ i.slack = 0
+    [] OTHER ->               \* "full": every layout x every classic way to write the allocation
+         /\ ~i.uneven /\ i.pslots = 1 /\ i.gpusrc = "config"
+         /\ i.cores = MinOf(CoresOf(i.rm)) \/ i.rm # "LSF"
 
 Inputs(r, hs, c, t, g, bc, b, a, sv) ==
-  {[rm |-> r, hosts |-> hs, shape |-> sh, pseudo |-> ps, style |-> st, cores |-> c, smt |-> t,
-    known |-> kn, gpn |-> g[1], bc |-> bc, bg |-> g[2], requested |-> rq, slack |-> sl,
-    backup |-> b, agents |-> a, service |-> sv] :
-      sh \in ShapesOf(r), ps \in PseudoOf(r), st \in StylesOf(r), kn \in KnownOf(r),
+  UNION {
+  {[rm |-> r, hosts |-> hs, shape |-> sh, pseudo |-> ps, pslots |-> pn, uneven |-> un, style |-> st,
+    cores |-> c, smt |-> t, known |-> kn, gpn |-> g[1], gpusrc |-> gs, bc |-> bc, bg |-> g[2],
+    requested |-> rq, slack |-> sl, backup |-> b, agents |-> a, service |-> sv] :
+      sh \in ShapesOf(r), pn \in PSlotsOf(r, ps), un \in UnevenOf(r), st \in StylesOf(r),
+      kn \in KnownOf(r), gs \in GpuSrcOf(r),
       rq \in 1 .. (IF r = "FORK" THEN 3 ELSE Len(hs) + 1), sl \in {0, 1}}
+  : ps \in PseudoOf(r)}
 
 WellFormed(i) ==
   /\ Cardinality(i.bc) < NCores(i) /\ \A x \in i.bc : x < NCores(i)
@@ -100,36 +125,78 @@ WellFormed(i) ==
   /\ i.known => i.slack = 0                      \* slack only where the RM derives the node count
   /\ ~i.known => i.backup = 0                    \* backup nodes need 'nodes' in the description
   /\ i.slack < UsableC(i)
+  /\ i.smt \in SmtOf(i.rm) /\ i.cores \in CoresOf(i.rm)
+  \* an unnamed pseudo node with the slot count of a compute node IS a compute node
+  /\ (i.pseudo = "launch" /\ i.pslots > 1) => i.pslots # SlotsPerHost(i)
+  \* the partially listed host keeps at least two lines (one line: read as a launch node)
+  /\ i.uneven => Len(i.hosts) >= 2 /\ SlotsPerHost(i) >= 3
+  \* GPUs announced through the environment: there are some, none is blocked by the config
+  /\ i.gpusrc # "config" => i.gpn > 0 /\ i.bg = {}
+
+\* the part of InSweep that can be decided before the input records are built
+PreSweep(r, hs, c, g, bc, b, a, sv) ==
+  CASE Sweep = "parse"  -> ~sv /\ ((b = 0 /\ a = 0) \/ (b = 1 /\ a = 1))
+    [] Sweep = "filter" -> g[1] = 0 /\ bc = {} /\ c = MinOf(CoresOf(r)) /\ hs = HostSeq(Len(hs), FALSE, "asc")
+    [] OTHER            -> c = MinOf(CoresOf(r)) \/ r # "LSF"
 
 Init ==
-  /\ \E r \in RMKinds, hs \in HostSeqs, c \in CoreChoices, t \in SmtChoices, g \in GpuCfgs,
-        bc \in BlockedCs, b \in Backups, a \in AgentCounts, sv \in BOOLEAN :
-       \E i \in Inputs(r, hs, c, t, g, bc, b, a, sv) :
-         /\ WellFormed(i) /\ InSweep(i)
-         /\ in = i
+  /\ \E r \in RMKinds :
+       \E hs \in HostSeqs, c \in CoresOf(r), t \in SmtOf(r), g \in GpuCfgs,
+          bc \in BlockedCs, b \in Backups, a \in AgentCounts, sv \in BOOLEAN :
+         /\ PreSweep(r, hs, c, g, bc, b, a, sv)
+         /\ r = "FORK" => hs = <<1>>
+         /\ \E i \in Inputs(r, hs, c, t, g, bc, b, a, sv) :
+              /\ WellFormed(i) /\ InSweep(i)
+              /\ in = i
   /\ phase = "start" /\ full = <<>> /\ P = EmptyP /\ reg = "none" /\ copy = "none" /\ fromreg = FALSE
+  /\ info = [cpn |-> 0, gpn |-> 0]
 
 (* ---- the pipeline ---------------------------------------------------------- *)
+\* LSF.init_from_scratch: slots per host (x SMT), pseudo nodes dropped by name or
+\* because they have one slot; what is left must be uniform and agree with the
+\* configured node size
+LsfParse ==
+  LET ls     == Lines(in)
+      cnt(h) == Count(h, ls) * in.smt
+      kept   == SelectSeq(Distinct(ls),
+                          LAMBDA h : DevKeepPseudo \/ (h \notin {PLogin, PBatch} /\ cnt(h) # in.smt))
+      unif   == Len(kept) > 0 /\ \A i \in 1 .. Len(kept) : cnt(kept[i]) = cnt(kept[1])
+      agree  == in.known => cnt(kept[1]) = CfgCpn(in)
+  IN [ok    |-> DevKeepPseudo \/ (DevLsfTrustConfig /\ in.known) \/ (unif /\ agree),
+      hosts |-> kept,
+      nc    |-> [i \in 1 .. Len(kept) |-> cnt(kept[i])],
+      cpn   |-> IF in.known \/ Len(kept) = 0 THEN CfgCpn(in) ELSE cnt(kept[1])]
+
 \* init_from_scratch of the subclass + _get_node_list
 Parse ==
   /\ phase = "start"
-  /\ LET usable == SelectSeq(Lines(in), LAMBDA h : DevKeepPseudo \/ ~IsPseudo(h))
+  /\ LET lsf    == in.rm = "LSF"
+         usable == SelectSeq(Lines(in), LAMBDA h : DevKeepPseudo \/ ~IsPseudo(h))
          perrm  == IF in.rm = "FORK" THEN AllocHosts(in)
+                   ELSE IF lsf THEN LsfParse.hosts
                    ELSE IF DevKeepDuplicates /\ in.shape \in {"slot_adj", "slot_mix"} THEN usable
                    ELSE IF in.rm = "PBSPRO_VNODE" THEN SortAsc(Distinct(usable))
                    ELSE Distinct(usable)
-         nc     == IF DevSmtTwice /\ in.rm = "PBSPRO_FILE" THEN NCores(in) * in.smt ELSE NCores(in)
-     IN full' = [i \in 1 .. Len(perrm) |-> Entry(perrm[i], i, nc, in.gpn)]
-  /\ phase' = "parsed"
+         nc(i)  == IF lsf THEN LsfParse.nc[i]
+                   ELSE IF DevSmtTwice /\ in.rm = "PBSPRO_FILE" THEN NCores(in) * in.smt ELSE NCores(in)
+         \* GPUs of a node: from the config, or (Slurm) from the environment
+         ng     == IF DevGpusAfterList /\ in.gpusrc # "config" THEN 0 ELSE in.gpn
+     IN IF lsf /\ ~LsfParse.ok
+          THEN phase' = "failed" /\ UNCHANGED <<full, info>>
+          ELSE /\ full' = [i \in 1 .. Len(perrm) |-> Entry(perrm[i], i, nc(i), ng)]
+               /\ info' = [cpn |-> IF lsf THEN LsfParse.cpn ELSE NCores(in), gpn |-> in.gpn]
+               /\ phase' = "parsed"
   /\ (PrintCases =>
-        PrintT(<<"CASE", in.rm, in.hosts, in.shape, in.pseudo, in.style, in.cores, in.smt, in.known,
-                 in.gpn, in.bc, in.bg, in.requested, in.slack, in.backup, in.agents, in.service>>))
+        PrintT(<<"CASE", in.rm, in.hosts, in.shape, in.pseudo, in.pslots, in.uneven, in.style, in.cores,
+                 in.smt, in.known, in.gpn, in.gpusrc, in.bc, in.bg, in.requested, in.slack, in.backup,
+                 in.agents, in.service>>))
   /\ UNCHANGED <<in, P, reg, copy, fromreg>>
 
 \* blocked cores / GPUs are marked DOWN in every entry
 Blocked ==
   /\ phase = "parsed"
   /\ full' = [i \in 1 .. Len(full) |-> Block(full[i], in.bc, in.bg)]
+  /\ info' = [cpn |-> info.cpn - Cardinality(in.bc), gpn |-> info.gpn - Cardinality(in.bg)]
   /\ phase' = "blocked"
   /\ UNCHANGED <<in, P, reg, copy, fromreg>>
 
@@ -144,7 +211,7 @@ Cut ==
                                       !.backup = IF DevBackupAfterCut THEN SubSeq(cut, Req(in) + 1, Len(cut))
                                                  ELSE SubSeq(full, Req(in) + 1, Len(full))]
                /\ phase' = "cut"
-  /\ UNCHANGED <<in, full, reg, copy, fromreg>>
+  /\ UNCHANGED <<in, full, reg, copy, fromreg, info>>
 
 \* agent nodes, then the service node, are popped from the end of the list
 Reserve ==
@@ -159,14 +226,14 @@ Reserve ==
                                  !.agents  = [i \in 1 .. nag |-> P.nodes[n - i + 1]],
                                  !.service = [i \in 1 .. nsv |-> P.nodes[n - nag - i + 1]]]
                /\ phase' = "reserved"
-  /\ UNCHANGED <<in, full, reg, copy, fromreg>>
+  /\ UNCHANGED <<in, full, reg, copy, fromreg, info>>
 
 \* reg.put('rm.<name>', rm_info.as_dict())
 Publish ==
   /\ phase = "reserved"
   /\ reg' = [key |-> IF DevRegistryKeyCase THEN "rm.Name" ELSE "rm.name", val |-> P]
   /\ phase' = "published"
-  /\ UNCHANGED <<in, full, P, copy, fromreg>>
+  /\ UNCHANGED <<in, full, P, copy, fromreg, info>>
 
 \* another component (ResourceManager.__init__): RMInfo(reg.get('rm.<name>')) if
 \* the entry is there; otherwise it inspects the allocation itself - at a later
@@ -179,7 +246,7 @@ Recreate ==
      /\ copy' = IF ~found THEN P
                 ELSE IF DevCopyDropsService THEN [reg.val EXCEPT !.service = <<>>] ELSE reg.val
   /\ phase' = "recreated"
-  /\ UNCHANGED <<in, full, P, reg>>
+  /\ UNCHANGED <<in, full, P, reg, info>>
 
 Next == Parse \/ Blocked \/ Cut \/ Reserve \/ Publish \/ Recreate
 Spec == Init /\ [][Next]_vars
@@ -199,8 +266,11 @@ InvNonEmpty      == Offered => NonEmpty(P)
 InvNotLonger     == Offered => NotLonger(P, in)
 InvSameEverywhere == phase = "recreated" => fromreg /\ copy = P
 \* initialisation refuses exactly the allocations that cannot serve the request
-InvRefusal       == /\ phase = "failed" => ExpectError(in)
-                    /\ Offered => ~ExpectError(in)
+\* and the host files that cannot be read consistently
+InvRefusal       == /\ phase = "failed" => Refuses(in)
+                    /\ Offered => ~Refuses(in)
+\* what is offered / published is consistent in itself
+InvInfoAgrees    == Offered => InfoAgrees(P, info.cpn, info.gpn)
 \* the model's pipeline computes the partition of RMNodesOps (used by the monitor)
 InvExpected      == Offered => /\ P.nodes = Expected(in).nodes /\ P.agents = Expected(in).agents
                                /\ P.service = Expected(in).service
